@@ -21,7 +21,7 @@ let hex l =
   if Buffer.length b = 0 then "-" else Buffer.contents b
 
 let run_one bs ho bc hm init files sched =
-  let half = nat_of_int 4096 in
+  let half = half_scratch in
   let hashf = toy_hash (n_of_int hm) in
   let r = pack hashf toy_compress toy_uncompress (nat_of_int bs) ho bc half init files sched in
   match r with
@@ -87,7 +87,8 @@ let () =
           let fl = int_of_string toks.(7 + 2*i) in
           let d = unhex toks.(8 + 2*i) in
           ({ uf_dont_compress = fl land 1 <> 0; uf_dont_hash = fl land 2 <> 0;
-                  uf_dont_fragment = fl land 4 <> 0; uf_dont_dedup = fl land 8 <> 0 }, d)) in
+                  uf_dont_fragment = fl land 4 <> 0; uf_dont_dedup = fl land 8 <> 0;
+                  uf_ignore_sparse = fl land 16 <> 0 }, d)) in
         let lazy_s = [] in
         let eager_s = List.init nfiles (fun _ -> nat_of_int 3) in
         let seed = ref (bs * 7919 + nfiles * 104729 + hm) in
